@@ -3,6 +3,10 @@ import ChessVerif.Props.C17.Basic
 open Chess.Props.C17
 #print axioms book_walk_ok
 #print axioms book_walk_size
+#print axioms every_line_legal
+#print axioms every_line_playable
+#print axioms every_line_no_promotion
+#print axioms every_line_bounded
 #print axioms Chess.Props.C17.step_decreases
 #print axioms Chess.Props.C17.visit_fuel
 #print axioms Chess.Props.C17.step_oob
